@@ -1,6 +1,7 @@
 package main
 
 import (
+	"encoding/hex"
 	"fmt"
 	"net"
 	"sort"
@@ -85,6 +86,27 @@ func c08Msg(c *Ctx, stream string, m *dns.Msg, plain bool) {
 	}
 }
 
+// fixedTailChecks: a record whose last field is an integer, an address or a name (never empty on the wire): a buffer of
+// exactly Len(rr) octets is room enough for PackRR, and ToRFC3597 — which packs into such a buffer — gives the RDATA.
+// (Records that end in an empty string or list are left out: there the library asks for one octet more than it writes.)
+func fixedTailChecks(c *Ctx, stream string, g *GenRR, rr dns.RR) {
+	pl := loadSpec().byCode[g.Type]
+	if pl == nil || len(pl.Steps) == 0 || len(g.Rdata) == 0 {
+		return
+	}
+	last := pl.Steps[len(pl.Steps)-1].Codec
+	if !(strings.HasPrefix(last, "unpackUint") || last == "unpackDataA" || last == "unpackDataAAAA" || last == "UnpackDomainName") {
+		return
+	}
+	buf := make([]byte, dns.Len(rr))
+	_, perr := dns.PackRR(rr, buf, 0, nil, false)
+	in := fmt.Sprintf("type=%s wire=%s", pl.Type, hx(g.Wire))
+	c.Pred(stream, "exact-buffer-suffices:"+pl.Type, in, perr == nil, fmt.Sprint(perr), "nil", true)
+	r3 := new(dns.RFC3597)
+	e3 := r3.ToRFC3597(rr)
+	c.Pred(stream, "to-rfc3597:"+pl.Type, in, e3 == nil && r3.Rdata == hex.EncodeToString(g.Rdata), fmt.Sprint(e3, " ", r3.Rdata), hx(g.Rdata), true)
+}
+
 func runC08(c *Ctx) {
 	r := c.R
 	c.Res.Rule = "messages decoded from generated wire data (all types incl. bitmaps, OPT, SVCB, APL; escaped names; shared suffixes), both compression settings; plain = common types with escape-free content; non-trivial = at least one record; distinct by content"
@@ -114,6 +136,9 @@ func runC08(c *Ctx) {
 				continue
 			}
 			c08Msg(c, "per-type", m, false)
+			if len(m.Answer) == 1 {
+				fixedTailChecks(c, "per-type", g.An[0], m.Answer[0])
+			}
 		}
 	}
 	// beyond 16384 octets
